@@ -26,16 +26,23 @@ func (d *Driver) read() {
 
 	patterns := getNetconfPatterns()
 
+	// capture this open's done channel, a later Open replaces it
+	done := d.done
+
 	for {
 		select {
-		case <-d.done:
+		case <-done:
 			return
 		default:
 		}
 
 		rb, err := d.Channel.Read()
 		if err != nil {
-			d.errs <- err
+			select {
+			case d.errs <- err:
+			case <-done:
+				return
+			}
 		}
 
 		b = append(b, rb...)
